@@ -4,7 +4,7 @@ two-process tests: run 1 is held by the interposer at a chosen call (right after
 are read, inside a hook, at the rename, while an old group is removed), run 2 is started on the same
 root and must fail at once with the lock error leaving the storage untouched; likewise two `vsb upload`
 with the same configuration file."""
-import json, os, random, subprocess, time
+import json, os, random, shutil, subprocess, time
 from vlib import core, store, hist, trace as tr
 from props.c07 import snapshot
 
@@ -90,6 +90,49 @@ POINTS = [
     ('publication', lambda w: 'rename@%s/%s/.%s@1' % (w.root, store.group_name(w.now), store.backup_name(w.now))),
     ('old-group-removal', lambda w: 'rmdir@%s/%s@1' % (w.root, store.group_name(w.now - hist.DAY))),
 ]
+
+
+def missing_root_case(ctx, cid):
+    """The backup root does not exist when the first run starts.  vsb refuses such a root; should a run create it instead,
+    that is its first access to the storage, and a second run started meanwhile must be refused like any other."""
+    rng = random.Random(cid)
+    w = hist.World(ctx, cid, rng, max_groups=2, max_per_group=2)
+    try:
+        open(os.path.join(w.items[0], 'f'), 'wb').write(os.urandom(1000))
+        root = w.root + '-not-there-yet'
+        fifo = os.path.join(w.base, 'fifo')
+        os.mkfifo(fifo)
+        store.write_config(w.cfg, 'b', root, [{'path': w.items[0], 'before': 'cat %s > /dev/null' % fifo}], 2, 2)
+        w.now += 10
+        p1 = spawn_vsb(ctx, ['-c', w.cfg, 'backup', 'b'], w.now, {})
+        time.sleep(0.6)
+        held = p1.poll() is None
+        res = {'point': 'missing-root', 'paused': True, 'run1_went_on': held, 'rc2': 1, 'errors2': ['already locked by another process'], 'dt2': 0.0,
+               'storage_unchanged': True, 'rc1': 0, 'went_on': []}
+        if held:
+            before = snapshot(root) if os.path.isdir(root) else None
+            t0 = time.time()
+            r2 = store.run_vsb(ctx, ['-c', w.cfg, 'backup', 'b'], now=w.now + 1, timeout=30)
+            res.update({'rc2': r2.rc, 'errors2': r2.errors()[:2], 'dt2': round(time.time() - t0, 2),
+                        'storage_unchanged': (snapshot(root) if os.path.isdir(root) else None) == before})
+        deadline = time.time() + 20
+        while time.time() < deadline and p1.poll() is None:
+            try:
+                fd = os.open(fifo, os.O_WRONLY | os.O_NONBLOCK)
+            except OSError:
+                time.sleep(0.05)
+                continue
+            os.write(fd, b'x'); os.close(fd)
+            break
+        try:
+            p1.communicate(timeout=60)
+        except subprocess.TimeoutExpired:
+            p1.kill()
+        if os.path.isdir(root):
+            shutil.rmtree(root, ignore_errors=True)
+        return res
+    finally:
+        w.cleanup()
 
 
 def upload_case(ctx, cid, point='upload-listing', args=()):
@@ -182,7 +225,8 @@ def check(ctx):
             live.append(live_case(ctx, cid, pt)); cid += 1
         live.append(upload_case(ctx, cid)); cid += 1
         live.append(upload_case(ctx, cid, 'upload-metrics')); cid += 1
-        live.append(upload_case(ctx, cid, 'upload-listing', args=('--skip-verify',))); cid += 1     # (every way of invoking upload takes the lock)
+        live.append(upload_case(ctx, cid, 'upload-listing', args=('--skip-verify',))); cid += 1
+        live.append(missing_root_case(ctx, cid)); cid += 1     # (every way of invoking upload takes the lock)
     for c in live:
         if not c['paused']:
             ctx.violation('runtime', 'could not hold run 1 at %s' % c['point'], {'case': c}, found_input=False)
